@@ -21,12 +21,20 @@ KINDS = [
     ("var {n}: sampler;", None),
     ("var {n}: texture_storage_2d<rgba8unorm, write>;",
      "textureStore({n}, vec2<i32>(0, 0), vec4<f32>(0.0));"),
+    # a struct ending in a runtime-sized array: struct generation refuses it (documented
+    # panic) unless encase is on and bytemuck off - the numbering verdict has to come first
+    ("var<storage, read> {n}: Tail;", "_ = {n}.count;"),
+    ("var<storage, read_write> {n}: Tail;", "{n}.items[0] = 1.0;"),
 ]
+RTS_KINDS = (6, 7)
+RTS_DECL = "struct Tail { count: u32, items: array<f32> }"
 
 
 def make_source(pairs, used, kinds=None):
     lines = []
     body = []
+    if kinds and any(k in RTS_KINDS for k in kinds):
+        lines.append(RTS_DECL)
     for k, (g, b) in enumerate(pairs):
         decl, use = KINDS[kinds[k] if kinds else 0]
         n = "v%d" % k
@@ -130,12 +138,19 @@ def main(tier, replay, t0):
         r.shuffle(pairs)
         kinds = [r.randrange(len(KINDS)) for _ in pairs]
         cases.append(("r%d" % k, pairs, r.random() < 0.5, r.choice([None, "all"]), kinds))
+    # derive switches are not part of the numbering contract: the verdict must not depend on them
+    ropt = core.rng("c11-options")
+    derive = {}
+    for (cid, pairs, used, val, kinds) in cases:
+        if kinds is not None:
+            derive[cid] = ropt.choice([{}, {}, {"en": True}, {"bh": True}, {"bv": True, "bh": True},
+                                       {"en": True, "bh": True}, {"se": True}])
 
     jobs = []
     meta = {}
     for cid, pairs, used, val, kinds in cases:
         src = make_source(pairs, used, kinds)
-        opt = {}
+        opt = dict(derive.get(cid, {}))
         if val:
             opt["val"] = val
         jobs.append({"id": cid, "source": src, "opt": opt, "ref": True, "text": True})
@@ -165,7 +180,18 @@ def main(tier, replay, t0):
         rp = {"source": src, "options": {"validate": val}, "pairs": pairs, "expected": exp,
               "observed": {k: res.get(k) for k in ("result", "err_kind", "err_payload", "panic")}}
         shape = "len%d%s%s" % (len(pairs), "+val" if val else "", "+used" if used else "")
+        rp["options"].update(derive.get(cid, {}))
         if got == "panic":
+            rts = bool(kinds) and any(k in RTS_KINDS for k in kinds)
+            dv = derive.get(cid, {})
+            documented = rts and (not dv.get("en") or dv.get("bh")) and \
+                "untime-sized array" in (res.get("panic") or "")
+            if exp == "ok" and documented and ref.get("parse") == "ok" and not (
+                    val is not None and ref.get("valid_all") != "ok"):
+                # numbering is fine; struct generation declines the option set (C09's business)
+                by_outcome["declined-by-derive-options"] = \
+                    by_outcome.get("declined-by-derive-options", 0) + 1
+                continue
             viol.append(Violation("panic", exp, "generator panicked on %s multiset: %s" % (
                 exp, res.get("panic")), rp))
             continue
